@@ -304,4 +304,29 @@ theorem clenshaw_dst (x : ℝ) (F : List ℝ) (k : ℕ) :
     rw [this]; ring
 
 
+/-! ### the authalic radius -/
+
+/-- `asinh(e/√(1−e²)) = atanh(e)` for `0 < e < 1` -/
+theorem arsinh_eq_atanh (e : ℝ) (h0 : 0 < e) (h1 : e < 1) :
+    Real.arsinh (e / Real.sqrt (1 - e ^ 2)) = Real.log ((1 + e) / (1 - e)) / 2 := by
+  have hm : 0 < 1 - e := by linarith
+  have hp : 0 < 1 + e := by linarith
+  have hq : 0 < 1 - e ^ 2 := by nlinarith
+  have hs : 0 < Real.sqrt (1 - e ^ 2) := Real.sqrt_pos.mpr hq
+  rw [Real.arsinh]
+  have h1x : 1 + (e / Real.sqrt (1 - e ^ 2)) ^ 2 = (1 / Real.sqrt (1 - e ^ 2)) ^ 2 := by
+    rw [div_pow, div_pow, Real.sq_sqrt hq.le]; field_simp; ring
+  rw [h1x, Real.sqrt_sq (by positivity)]
+  have : e / Real.sqrt (1 - e ^ 2) + 1 / Real.sqrt (1 - e ^ 2) = Real.sqrt ((1 + e) / (1 - e)) := by
+    rw [← add_div]
+    have hfac : 1 - e ^ 2 = (1 + e) * (1 - e) := by ring
+    rw [hfac, Real.sqrt_mul hp.le, Real.sqrt_div hp.le]
+    have hsp : 0 < Real.sqrt (1 + e) := Real.sqrt_pos.mpr hp
+    have hsm : 0 < Real.sqrt (1 - e) := Real.sqrt_pos.mpr hm
+    rw [div_eq_div_iff (by positivity) (by positivity)]
+    have : (e + 1) = Real.sqrt (1 + e) * Real.sqrt (1 + e) := by rw [Real.mul_self_sqrt hp.le]; ring
+    rw [this]; ring
+  rw [this, Real.log_sqrt (by positivity)]
+
+
 end GeoVerif.Proofs.GeodLineX
